@@ -46,6 +46,52 @@ example : (new ([3, 2] : List Nat) [3, 3, 2, 2]).chunks =
 example : (new ([1, 2, 3, 4, 5, 6, 7, 8, 9] : List Nat) [1, 0, 3, 4, 5, 6, 7, 0, 9]).chunks =
     [⟨[⟨.replace, [2], [0]⟩], 2, 3, 2, 3⟩, ⟨[⟨.replace, [8], [0]⟩], 8, 9, 8, 9⟩] := by decide
 
+/-! ## AddContext -/
+
+/-- **`AddContext(n)` on correct chunks** (the code with the gap bound of commit 67e3ccb, which is
+what `addContextChunks` is: `C13_current`): `findContext` never reads out of range; every chunk of
+the result still consumes exactly its left range and produces exactly its right range; chunk by
+chunk the result is the original chunk with at most `n` context lines (one Emit) in front and at
+most `n` behind, the original edits untouched in between, both ranges grown by exactly the numbers
+of context lines. -/
+theorem addContext_ok (L R : List α) (n : Nat) (cs : List (Chunk α)) (hok : AllOK cs L R) :
+    ∃ cs', addContextChunks L R n cs = some cs' ∧ AllOK cs' L R ∧ AllCtxOf n cs cs' := by
+  obtain ⟨cs', h1, h2⟩ := addContext_rel n cs hok
+  exact ⟨cs', h1, ctxRel_ok cs cs' 1 hok h2⟩
+
+/-- **Context stays inside the gap between the original chunks**: if the chunks are in order then,
+for consecutive chunks `c`, `d` with images `c'`, `d'` under `AddContext(n)`, the post-context of
+`c` ends at or before `d` begins and the pre-context of `d` begins at or after `c` ends (`c'` and
+`d'` themselves may overlap; `Unify` resolves that); and line numbers stay ≥ 1. -/
+theorem addContext_gap (L R : List α) (n : Nat) (cs cs' : List (Chunk α)) (hok : AllOK cs L R)
+    (hasc : Ascending cs) (hctx : addContextChunks L R n cs = some cs') :
+    (∀ (i : Nat) (c d c' d' : Chunk α), cs[i]? = some c → cs[i + 1]? = some d →
+      cs'[i]? = some c' → cs'[i + 1]? = some d' → c'.lend ≤ d.lstart ∧ c.lend ≤ d'.lstart) ∧
+    (∀ c' ∈ cs', 1 ≤ c'.lstart ∧ 1 ≤ c'.rstart) := by
+  obtain ⟨cs'', h1, h2⟩ := addContext_rel n cs hok
+  rw [hctx] at h1
+  cases h1
+  exact ⟨ctxRel_gap cs cs' 1 hasc h2, fun c' hc' =>
+    ⟨((ctxRel_ok cs cs' 1 hok h2).1 c' hc').l1, ((ctxRel_ok cs cs' 1 hok h2).1 c' hc').r1⟩⟩
+
+/-- `(*Diff).AddContext` changes nothing but the chunks -/
+theorem addContext_edits (d d' : Diff α) (n : Nat) (h : d.addContext? n = some d') :
+    d'.edits = d.edits ∧ d'.left = d.left ∧ d'.right = d.right := by
+  unfold Diff.addContext? at h
+  cases hc : addContextChunks d.left d.right n d.chunks with
+  | none => rw [hc] at h; cases h
+  | some cs => rw [hc] at h; cases h; exact ⟨rfl, rfl, rfl⟩
+
+/-- non-vacuity: context 1 around two Replace chunks; with context 3 the two chunks overlap (line 5
+is post-context of the first and pre-context of the second; both stay inside the gap `[3, 8)`) -/
+example : addContextChunks ([1, 2, 3, 4, 5, 6, 7, 8, 9] : List Nat) [1, 0, 3, 4, 5, 6, 7, 0, 9] 1
+      (new ([1, 2, 3, 4, 5, 6, 7, 8, 9] : List Nat) [1, 0, 3, 4, 5, 6, 7, 0, 9]).chunks =
+    some [⟨[⟨.emit, [1], []⟩, ⟨.replace, [2], [0]⟩, ⟨.emit, [3], []⟩], 1, 4, 1, 4⟩,
+          ⟨[⟨.emit, [7], []⟩, ⟨.replace, [8], [0]⟩, ⟨.emit, [9], []⟩], 7, 10, 7, 10⟩] := by decide
+example : (addContextChunks ([1, 2, 3, 4, 5, 6, 7, 8, 9] : List Nat) [1, 0, 3, 4, 5, 6, 7, 0, 9] 3
+      (new ([1, 2, 3, 4, 5, 6, 7, 8, 9] : List Nat) [1, 0, 3, 4, 5, 6, 7, 0, 9]).chunks).map
+        (fun cs => cs.map fun c => (c.lstart, c.lend)) = some [(1, 6), (5, 10)] := by decide
+
 /-! ## Regression: finding F4 (AddContext before commit 67e3ccb) and the generated fact -/
 
 set_option maxRecDepth 4000 in
